@@ -113,6 +113,17 @@ namespace Mach
 
 def isRecording (m : Mach) : Bool := m.log.isSome
 
+/-! ### what the host configures (`State::set_insn_limit`, `set_stack_limit`, `set_heap_limit`, `set_recording_enabled`) -/
+
+/-- `set_insn_limit`: the limit, and the count starts afresh — the only one of the four that touches the meter -/
+def setInsnLimit (m : Mach) (l : Option Nat) : Mach := { m with insnLimit := l, meter := 0 }
+def setStackLimit (m : Mach) (l : Option Nat) : Mach := { m with stackLimit := l }
+def setHeapLimit (m : Mach) (l : Option Nat) : Mach := { m with heapLimit := l }
+/-- `set_recording_enabled`: on = an empty log unless there is one already (asserting it again is not a restart),
+    off = the log is dropped -/
+def setRecording (m : Mach) (on : Bool) : Mach :=
+  { m with log := if on then (if m.log.isSome then m.log else some []) else none }
+
 def logStep (m : Mach) (s : RStep) : Mach := { m with log := m.log.map (s :: ·) }
 
 def ip (m : Mach) : Nat := m.ctx.ip
